@@ -781,3 +781,192 @@ Section FileProofs.
     filter (fun e => mt (e_stream e)) (entries_from fi 0 (f_streams f)).
   Proof. apply (M_of_seq (f_streams f) []). auto. Qed.
 End FileProofs.
+
+(* ================================================================== *)
+(* E. the stack of index files                                        *)
+(* ================================================================== *)
+Lemma SS_app_intro : forall A (R : A -> A -> Prop) l1 l2, StronglySorted R l1 -> StronglySorted R l2 ->
+  (forall a b, In a l1 -> In b l2 -> R a b) -> StronglySorted R (l1 ++ l2).
+Proof.
+  induction l1 as [|x l1 IH]; simpl; intros l2 S1 S2 H; auto.
+  inversion S1; subst. constructor.
+  - apply IH; auto.
+  - rewrite Forall_app. split; auto. rewrite Forall_forall. intros; apply H; auto.
+Qed.
+
+Lemma SS_rev : forall A (R : A -> A -> Prop) l, StronglySorted R l -> StronglySorted (fun a b => R b a) (rev l).
+Proof.
+  induction 1; simpl; [constructor|].
+  apply SS_app_intro; auto.
+  - constructor; [constructor|constructor].
+  - intros x y Hx [<-|[]]. rewrite Forall_forall in H0. apply H0. apply in_rev; auto.
+Qed.
+
+Lemma SS_weaken : forall A (R R' : A -> A -> Prop) l, (forall a b, R a b -> R' a b) ->
+  StronglySorted R l -> StronglySorted R' l.
+Proof.
+  induction 2; constructor; auto. rewrite Forall_forall in *. auto.
+Qed.
+
+(* the sorted sections of a file as the writer produces them *)
+Definition key_sorted (f : file) (k : skey) (i j : nat) : Prop :=
+  forall s t, nth_error (f_streams f) i = Some s -> nth_error (f_streams f) j = Some t -> key_lt k t s = false.
+Definition sections_ok (f : file) : Prop :=
+  forall k sec, section_of f k = Some sec ->
+    Permutation sec (seq 0 (nstreams f)) /\ StronglySorted (key_sorted f k) sec.
+
+Lemma sorting_lookup_ok : forall ks L fi f, sections_ok f ->
+  lookup_ok (entry_less ks) fi f (sorting_lookup_of v_fixed ks L f).
+Proof.
+  intros ks L fi f Hsec. unfold sorting_lookup_of.
+  destruct (Nat.eqb L 0); simpl; auto.
+  destruct ks as [|[k desc] rest]; simpl; auto.
+  destruct rest as [|kd rest]; simpl; auto.
+  destruct (section_of f k) as [sec|] eqn:E; simpl; auto.
+  destruct (Hsec _ _ E) as [HP HS].
+  destruct desc.
+  - split.
+    + eapply Permutation_trans; [apply Permutation_sym; apply Permutation_rev|]; auto.
+    + apply SS_rev in HS. eapply SS_weaken; [|apply HS].
+      intros i j H s t Hs Ht. rewrite entry_less_single. unfold sorter; simpl.
+      apply (H t s); auto.
+  - split; auto. eapply SS_weaken; [|apply HS].
+    intros i j H s t Hs Ht. rewrite entry_less_single. unfold sorter; simpl.
+    apply (H s t); auto.
+Qed.
+
+Section StackProofs.
+  Variable ks : list sorting.
+  Variable L : nat.
+  Variable idok sat : stream -> bool.
+
+  Definition file_ok (fp : file * list qpart) : Prop :=
+    parts_sound (fst fp) (snd fp) sat /\ lookups_complete (snd fp) /\ sections_ok (fst fp).
+
+  Definition wanted (e : entry) : bool := idok (e_stream e) && sat (e_stream e).
+
+  Lemma search_files_inv : forall fs fi, Forall file_ok fs ->
+    Inv (entry_less ks) L (filter wanted (visible_from fi (map fst fs)))
+        (search_files v_fixed ks L idok fi fs acc0).
+  Proof.
+    induction fs as [|[f parts] newer IH]; intros fi Hok; simpl.
+    - apply Inv_init.
+    - inversion Hok as [|? ? (H1 & H2 & H3) Hok']; subst. simpl in *.
+      rewrite filter_app.
+      eapply Inv_perm; [apply Permutation_app_comm|].
+      rewrite filter_filter.
+      rewrite (filter_ext _ (fun e => mt idok (map fst newer) sat (e_stream e))).
+      + rewrite <- (M_of_file idok (map fst newer) fi f sat).
+        apply search_file_inv; auto.
+        * apply swo_entry_less.
+        * apply sorting_lookup_ok; auto.
+      + intros e. unfold wanted, mt.
+        destruct (idok (e_stream e)), (superseded (map fst newer) (e_stream e)), (sat (e_stream e)); auto.
+  Qed.
+End StackProofs.
+
+(* ================================================================== *)
+(* F. ranks: two sorted arrangements agree up to ties                 *)
+(* ================================================================== *)
+Section Rank.
+  Variable less : entry -> entry -> bool.
+  Hypothesis Hswo : swo less.
+  Notation sorted := (sorted less).
+
+  Definition equiv (x y : entry) : Prop := less x y = false /\ less y x = false.
+  Definition cnt_lt (x : entry) (S : list entry) : nat := length (filter (fun y => less y x) S).
+  Definition cnt_le (x : entry) (S : list entry) : nat := length (filter (fun y => negb (less x y)) S).
+
+  Lemma ins_spec : forall e l, sorted l -> sorted (ins less e l) /\ Permutation (ins less e l) (e :: l).
+  Proof.
+    induction l as [|x l IH]; intros S; simpl.
+    - split; auto. constructor; auto.
+    - inversion S as [|? ? S' F]; subst. destruct (less e x) eqn:E.
+      + split; auto. constructor; auto. constructor.
+        * unfold le_. apply (swo_asym Hswo); auto.
+        * rewrite Forall_forall in *. intros y Hy. specialize (F _ Hy). unfold le_ in *.
+          destruct (less y e) eqn:Ey; auto.
+          rewrite (swo_trans Hswo _ _ _ Ey E) in F. discriminate.
+      + destruct (IH S') as [IS IP]. split.
+        * constructor; auto. rewrite Forall_forall in *. intros y Hy.
+          apply (Permutation_in _ IP) in Hy. destruct Hy as [<-|Hy]; auto.
+        * eapply Permutation_trans; [apply perm_skip; apply IP|]. apply perm_swap.
+  Qed.
+
+  Lemma sort_entries_spec : forall l, sorted (sort_entries less l) /\ Permutation (sort_entries less l) l.
+  Proof.
+    induction l as [|x l [IS IP]]; simpl.
+    - split; auto. constructor.
+    - destruct (ins_spec x IS) as [S P]. split; auto.
+      eapply Permutation_trans; [apply P|]. constructor; auto.
+  Qed.
+
+  Lemma rank_pos : forall M pre x post rest,
+    sorted (pre ++ x :: post) ->
+    (forall y, In y rest -> less y x = false) ->
+    Permutation M ((pre ++ x :: post) ++ rest) ->
+    cnt_lt x M <= length pre /\ length pre < cnt_le x M.
+  Proof.
+    intros M pre x post rest S HR HP. unfold cnt_lt, cnt_le.
+    rewrite (filter_length_perm _ HP), (filter_length_perm (fun y => negb (less x y)) HP).
+    destruct (sorted_app_inv _ _ S) as (S1 & S2 & S12). inversion S2 as [|? ? S3 F]; subst.
+    rewrite !filter_app, !app_length. simpl. rewrite (swo_irrefl Hswo). simpl.
+    split.
+    - rewrite (filter_none (fun y => less y x) post), (filter_none (fun y => less y x) rest); auto.
+      + simpl. pose proof (filter_length_le (fun y => less y x) (fun _ => true) pre (fun _ _ _ => eq_refl)).
+        rewrite (filter_all (fun _ : entry => true) pre) in H; auto. lia.
+      + rewrite Forall_forall in F. intros y Hy. apply F; auto.
+    - rewrite (filter_all (fun y => negb (less x y)) pre); [lia|].
+      intros y Hy. assert (le_ less y x) by (apply S12; auto; left; auto). unfold le_ in H. rewrite H. auto.
+  Qed.
+
+  Lemma rank_equiv : forall M i x x', cnt_lt x M <= i -> i < cnt_le x M ->
+    cnt_lt x' M <= i -> i < cnt_le x' M -> equiv x x'.
+  Proof.
+    assert (Hhalf : forall M i x x', i < cnt_le x M -> cnt_lt x' M <= i -> less x x' = false).
+    { intros M i x x' H1 H2. destruct (less x x') eqn:E; auto. exfalso.
+      assert (cnt_le x M <= cnt_lt x' M).
+      { unfold cnt_le, cnt_lt. apply filter_length_le. intros y _ Hy.
+        destruct (less y x') eqn:Ey; auto.
+        assert (less x y = false) by (destruct (less x y); auto; discriminate).
+        rewrite (swo_negtrans Hswo _ _ _ H Ey) in E. discriminate. }
+      lia. }
+    intros. split; eauto.
+  Qed.
+
+  Lemma nth_firstn_lt : forall (d : entry) n l i, i < n -> nth i (firstn n l) d = nth i l d.
+  Proof.
+    induction n; intros [|x l] i Hi; simpl; auto; try lia. destruct i; auto. apply IHn. lia.
+  Qed.
+
+  (* l: a sorted selection of M whose complement is not before any selected entry;
+     full: any sorted arrangement of M.  Position by position they tie. *)
+  Lemma sorted_prefix_equiv : forall M l rest full,
+    sorted l -> (forall x y, In x rest -> In y l -> less x y = false) -> Permutation M (l ++ rest) ->
+    sorted full -> Permutation M full ->
+    Forall2 equiv l (firstn (length l) full).
+  Proof.
+    intros M l rest full Sl HR HP Sf HPf.
+    assert (Hlen : length l <= length full).
+    { rewrite <- (Permutation_length HPf), (Permutation_length HP), app_length. lia. }
+    destruct l as [|d l0] eqn:El; [simpl; constructor|]. rewrite <- El in *.
+    apply Forall2_nth_intro with (d := d).
+    - rewrite firstn_length. lia.
+    - intros i Hi. rewrite nth_firstn_lt; auto.
+      destruct (nth_split l d Hi) as (p1 & q1 & E1 & L1).
+      assert (Hi' : i < length full) by lia.
+      destruct (nth_split full d Hi') as (p2 & q2 & E2 & L2).
+      set (x := nth i l d) in *. set (x' := nth i full d) in *.
+      assert (R1 : cnt_lt x M <= length p1 /\ length p1 < cnt_le x M).
+      { apply rank_pos with (post := q1) (rest := rest).
+        - rewrite <- E1; auto.
+        - intros y Hy. apply HR; auto. rewrite E1. apply in_or_app. right. left. auto.
+        - rewrite <- E1; auto. }
+      assert (R2 : cnt_lt x' M <= length p2 /\ length p2 < cnt_le x' M).
+      { apply rank_pos with (post := q2) (rest := []).
+        - rewrite <- E2; auto.
+        - intros y [].
+        - rewrite app_nil_r, <- E2; auto. }
+      rewrite L1 in R1. rewrite L2 in R2. destruct R1, R2. eapply rank_equiv; eauto.
+  Qed.
+End Rank.
